@@ -24,10 +24,12 @@ func checkC09(c *Ctx) {
 
 	c.Rule("C09/R8", "every field has its own first-observation table: the map stored into Field.order (and the comparator reading it) is created inside the per-field initialiser, never captured from outside it, so the keys inside .config do not share ranks")
 	c.Rule("C09/R9", "numeric suffix scales cannot wrap: no left shift in the sorting code has an amount that provably reaches the operand's width for an entry of a literal suffix table (1<<(10*exp) is 0 from Zi on; math.Pow has no such limit)")
+	c.Rule("C09/R10", "the flattened-field cache's 'built' state is its being non-nil: the Once-guarded builder leaves a non-nil slice on every path (also with zero leaf fields) and the reset triggered by a new field is guarded by 'cache != nil' only")
 	p := mustLoad(c, loadOpts{}, "./benchproc")
 	c09(c, p)
 	c09PerField(c, p)
 	c09Shifts(c, p)
+	c09FlatInvariant(c, p, "C09/R10")
 }
 
 func c09(c *Ctx, p *Prog) {
@@ -747,4 +749,166 @@ func c09Shifts(c *Ctx, p *Prog) {
 		c.OK(R, "positive-control", "checker/testdata/lookbehind/lb.go", "matcher fires on the stored suffix-table shift")
 	}
 	c.OK(R, "shifts:bounded", "", fmt.Sprintf("%d variable shifts in %d functions, none with a provable out-of-range amount", nS, nF))
+}
+
+// nonNilSlice: v is provably a non-nil slice: a literal or make, an append onto one, or the result of a function of the
+// program that only ever returns (an append onto) the slice it was given, called with a non-nil one.
+func nonNilSlice(v ssa.Value, d int) bool {
+	if d > 6 {
+		return false
+	}
+	switch x := stripConv(v).(type) {
+	case *ssa.Slice:
+		if _, ok := x.X.(*ssa.Alloc); ok {
+			return true
+		}
+		return nonNilSlice(x.X, d+1) && false
+	case *ssa.MakeSlice:
+		return true
+	case *ssa.Phi:
+		for _, e := range x.Edges {
+			if !nonNilSlice(e, d+1) {
+				return false
+			}
+		}
+		return len(x.Edges) > 0
+	case *ssa.Call:
+		if b, ok := x.Call.Value.(*ssa.Builtin); ok && b.Name() == "append" {
+			return nonNilSlice(x.Call.Args[0], d+1)
+		}
+		h := x.Call.StaticCallee()
+		if h == nil || h.Blocks == nil {
+			return false
+		}
+		// which parameter does h pass through?
+		for i, prm := range h.Params {
+			if _, ok := prm.Type().Underlying().(*types.Slice); !ok {
+				continue
+			}
+			var from func(r ssa.Value, dd int) bool
+			from = func(r ssa.Value, dd int) bool {
+				if dd > 6 {
+					return false
+				}
+				switch y := stripConv(r).(type) {
+				case *ssa.Parameter:
+					return y == prm
+				case *ssa.Phi:
+					for _, e := range y.Edges {
+						if e != ssa.Value(y) && !from(e, dd+1) {
+							return false
+						}
+					}
+					return true
+				case *ssa.Call:
+					if b, ok := y.Call.Value.(*ssa.Builtin); ok && b.Name() == "append" {
+						return from(y.Call.Args[0], dd+1)
+					}
+					if y.Call.StaticCallee() == h && i < len(y.Call.Args) {
+						return from(y.Call.Args[i], dd+1) // recursion passes it on
+					}
+				}
+				return false
+			}
+			all, n := true, 0
+			for _, b := range h.Blocks {
+				if ret, ok := b.Instrs[len(b.Instrs)-1].(*ssa.Return); ok && len(ret.Results) == 1 {
+					n++
+					if !from(retVal(ret, 0), 0) {
+						all = false
+					}
+				}
+			}
+			if all && n > 0 && i < len(x.Call.Args) {
+				return nonNilSlice(x.Call.Args[i], d+1)
+			}
+		}
+	}
+	return false
+}
+
+// c09FlatInvariant: "built" is represented by a non-nil cache. Two things keep that representation honest: the
+// builder leaves a non-nil slice even when there is not a single leaf field, and the reset that a new field triggers
+// tests the cache against nil (an empty but built cache must be dropped too).
+func c09FlatInvariant(c *Ctx, p *Prog, R string) {
+	flatF := p.Field("benchproc", "Projection", "flatCache")
+	if flatF == nil {
+		c.Undecided(R, "anchor:Projection.flatCache", "", "field not found")
+		return
+	}
+	nB, nG := 0, 0
+	for _, fn := range p.Funcs("benchproc") {
+		// builders: closures handed to Once.Do that store the cache
+		if fn.Parent() != nil && passedToOnceDo(fn) && !passedToOnceDo(fn.Parent()) && len(storesToField(fn, flatF)) > 0 {
+			nB++
+			ok := false
+			for _, st := range storesToField(fn, flatF) {
+				domAll := true
+				for _, b := range fn.Blocks {
+					if _, isRet := b.Instrs[len(b.Instrs)-1].(*ssa.Return); isRet && !st.Block().Dominates(b) {
+						domAll = false
+					}
+				}
+				if domAll && nonNilSlice(st.Val, 0) {
+					ok = true
+				}
+			}
+			c.Check(ok, R, fnName(fn)+":builder-leaves-non-nil", p.pos(fn.Pos()), "the builder stores a non-nil slice on every path",
+				"the cache builder can leave the cache nil (a projection with no leaf field yet, e.g. only .config before any result): 'built' is then indistinguishable from 'not built', the reset on adding a field never happens, and every later field is invisible to sorting, key printing and the residue warning")
+		}
+		// reset guards: an If on the cache that leads to a store of nil into it
+		for _, st := range storesToField(fn, flatF) {
+			k, isK := st.Val.(*ssa.Const)
+			if !isK || !k.IsNil() {
+				continue
+			}
+			nG++
+			okGuard, seen := true, false
+			for _, f := range factsAt(st.Block()) {
+				mentions := false
+				var walk func(v ssa.Value, d int)
+				walk = func(v ssa.Value, d int) {
+					if d > 4 || v == nil {
+						return
+					}
+					if fl, _ := loadOfField(v); fl == flatF {
+						mentions = true
+					}
+					switch x := v.(type) {
+					case *ssa.BinOp:
+						walk(x.X, d+1)
+						walk(x.Y, d+1)
+					case *ssa.Call:
+						for _, a := range x.Call.Args {
+							walk(a, d+1)
+						}
+					case *ssa.UnOp:
+						walk(x.X, d+1)
+					}
+				}
+				walk(f.Cond, 0)
+				if !mentions {
+					continue
+				}
+				seen = true
+				bo, isBo := f.Cond.(*ssa.BinOp)
+				isNilCmp := false
+				if isBo {
+					if kk, ok := bo.Y.(*ssa.Const); ok && kk.IsNil() {
+						if fl, _ := loadOfField(bo.X); fl == flatF && ((bo.Op == token.NEQ && f.True) || (bo.Op == token.EQL && !f.True)) {
+							isNilCmp = true
+						}
+					}
+				}
+				if !isNilCmp {
+					okGuard = false
+				}
+			}
+			_ = seen
+			c.Check(okGuard, R, fmt.Sprintf("%s:reset-guard#%d", fnName(fn), nG), p.pos(st.Pos()), "the cache is dropped whenever it was built (tested against nil, or unconditionally)",
+				"the reset of the flattened-field cache is guarded by something other than 'cache != nil' (its length, say): a cache that was built while the projection had no leaf field is empty but valid-looking and is never rebuilt, so fields added later are missing from sorting, key printing and the residue warning")
+		}
+	}
+	c.Floor(R, "flattened-field cache builders", nB, 1)
+	c.Floor(R, "flattened-field cache resets", nG, 1)
 }
